@@ -89,6 +89,29 @@ class C05(Property):
                     s.add("P.1.%s" % nu.ipv4_packet(nu.node_ip(1), nu.node_ip(2), b"\x11"), "A", "O.2")
                     s.add("P.2.%s" % nu.ipv4_packet(nu.node_ip(2), nu.node_ip(1), b"\x22"), "A", "O.1")
                     out.append(s.line())
+        # a LATE first ping: everything is lost, but the very first ping is delivered d seconds late (the responder then answers
+        # and keeps repeating its pong into the void for another 120 s); the initiator gives up at 120 s and dials again while the
+        # responder is still answering the abandoned attempt; from then on delivery is reliable
+        for d in ([30, 80, 110, 119] if thorough else [80, 110]):
+            for U in ([121, 125, 150, 190, 230] if thorough else [125, 150]):
+                s = nu.Scenario()
+                s.node(1, mode="tun-router", claims=["0a000100/24"])
+                s.node(2, mode="tun-router", claims=["0a000200/24"])
+                s.add("R.1.2", "M.1.1", "M.2.1", "C.1.2")
+                for _ in range(U):
+                    s.t += 1
+                    s.add("T.%d" % s.t, "H.1", "H.2")
+                    if s.t == 1 + d:
+                        s.add("D.0")
+                    s.add("A")
+                s.add("M.1.0", "M.2.0", "C.1.2", "A")
+                for _ in range(300 + 120 + 30):
+                    s.t += 1
+                    s.add("T.%d" % s.t, "H.1", "H.2", "A")
+                s.add("S.1", "S.2")
+                s.add("P.1.%s" % nu.ipv4_packet(nu.node_ip(1), nu.node_ip(2), b"\x11"), "A", "O.2")
+                s.add("P.2.%s" % nu.ipv4_packet(nu.node_ip(2), nu.node_ip(1), b"\x22"), "A", "O.1")
+                out.append(s.line())
         # a SECOND handshake with an address one side still holds as a peer: (i) a node restarts on the same address (fresh state and
         # node id) and the connection is set up again, inside and after the 60 s in which the old initiator keeps its handshake state;
         # (ii) a one-sided time-out: with a short peer timeout one node is mute long enough for the other to drop it while it keeps
@@ -117,6 +140,29 @@ class C05(Property):
                     s.add("P.1.%s" % nu.ipv4_packet(nu.node_ip(1), nu.node_ip(2), b"\x11"), "A", "O.2")
                     s.add("P.2.%s" % nu.ipv4_packet(nu.node_ip(2), nu.node_ip(1), b"\x22"), "A", "O.1")
                     out.append(s.line())
+        # a late DUPLICATE of the initiator's ping reaches the responder after the initiator stopped lingering (a second handshake
+        # entry next to the peer entry), then the network is down for longer than the peer timeout; afterwards delivery is reliable
+        for pt in ([10, 20, 40] if thorough else [20]):
+            for late in ([61, 70, 200] if thorough else [70, 200]):
+                s = nu.Scenario()
+                s.node(1, mode="tun-router", pt=pt, claims=["0a000100/24"])
+                s.node(2, mode="tun-router", pt=pt, claims=["0a000200/24"])
+                s.add("R.1.2", "R.2.1", "C.1.2", "A")
+                s.tick(late)
+                s.add("J.0.2.1", "A")
+                s.tick(rng.choice([0, 1, 5]))
+                s.add("M.1.1", "M.2.1")
+                for _ in range(pt + 8):
+                    s.t += 1
+                    s.add("T.%d" % s.t, "H.1", "H.2", "A")
+                s.add("M.1.0", "M.2.0")
+                for _ in range(pt + 120 + 30):          # the bound of the property: peer timeout + retry horizon (+ slack)
+                    s.t += 1
+                    s.add("T.%d" % s.t, "H.1", "H.2", "A")
+                s.add("S.1", "S.2")
+                s.add("P.1.%s" % nu.ipv4_packet(nu.node_ip(1), nu.node_ip(2), b"\x11"), "A", "O.2")
+                s.add("P.2.%s" % nu.ipv4_packet(nu.node_ip(2), nu.node_ip(1), b"\x22"), "A", "O.1")
+                out.append(s.line())
         for pt in ([10, 20, 40] if thorough else [20]):
             for who in (1, 2):
                 s = nu.Scenario()
